@@ -217,10 +217,11 @@ class Sim:
         return self.ch.flip(p)
 
     # -- quiescence ------------------------------------------------------------
-    def quiescent(self):
-        """awaitable: resolves when ready queue is empty and no actor is enabled"""
+    def quiescent(self, horizon=0.0):
+        """awaitable: resolves when the ready queue is empty, no actor is enabled and no timer is
+        due within `horizon` virtual seconds (short sleeps such as throttling are waited out)"""
         fut = self.loop.create_future()
-        self.quiet_waiters.append(fut)
+        self.quiet_waiters.append((fut, horizon))
         return fut
 
     def is_quiet(self):
@@ -258,14 +259,22 @@ class Sim:
                 self.note("stall")
                 return
         if not loop._ready:
-            if not acts and self.quiet_waiters:
-                ws, self.quiet_waiters = self.quiet_waiters, []
-                for w in ws:
-                    if not w.done():
-                        w.set_result(None)
-                self.note("quiet")
-                return
             nxt = loop._next_timer()
+            if not acts and self.quiet_waiters:
+                gap = None if nxt is None else nxt - self.clock.mono
+                keep, woke = [], False
+                for w, hz in self.quiet_waiters:
+                    if w.done():
+                        continue
+                    if gap is None or gap > hz:
+                        w.set_result(None)
+                        woke = True
+                    else:
+                        keep.append((w, hz))
+                self.quiet_waiters = keep
+                if woke:
+                    self.note("quiet")
+                    return
             if nxt is not None:
                 far = (nxt - self.clock.mono) > 1.0
                 if not acts:
